@@ -153,7 +153,7 @@ def main(pid):
     import gendocs
     docs = list(gendocs.pairs())
     rnd.shuffle(docs)
-    docs = docs[: (6000 if thorough else 1500)] + list(gendocs.random_docs(vlib.seed(), 6000 if thorough else 1500, kmin=3, kmax=9))
+    docs = gendocs.reference_docs() + docs[: (6000 if thorough else 1500)] + list(gendocs.random_docs(vlib.seed(), 6000 if thorough else 1500, kmin=3, kmax=9))
     # every example citation of reporters-db next to its neighbours (same reporter, different
     # volume / page, incl. pages written with separators): distinct documents must not share a resource
     ex = vlib.impl_run("drv_extract", "db_examples", {})["reporters"]
